@@ -92,7 +92,9 @@ def exhaustive(tier):
                 ops += [["raw_add", (j << r) | 1] for j in range(size) if j not in (head, (head - 1) % size)]
                 for victim in ((head << r) | 1, (((head + 7) % size) << r) | 1):
                     yield {"q": q, "auto": False, "mlf": None, "hash": "default", "tops": [0, 1, 2, 3], "lows": [1, 2, 3], "pool": [],
-                           "ops": ops + [["raw_remove", victim], ["raw_add", victim]], "verify_every": 128, "nocap": True}
+                           # (first a NEW hash offered to the full table: refused, and promptly)
+                           "ops": ops + [["raw_add", (((head + 3) % size) << r) | 3], ["raw_remove", victim], ["raw_add", victim]],
+                           "verify_every": 128, "nocap": True}
 
     return [("q3_orders<=%d_of_16_x_removal+full_tables" % K, gen), ("storage_type_codes_q16_q24", big),
             ("full_single_cluster_tables_q9_q10", full_big)]
